@@ -60,7 +60,13 @@ func (i *InviteV2Request) UnmarshalJSON(data []byte) error {
 	if err != nil {
 		return err
 	}
-	i.fields.Event, err = verImpl.NewEventFromUntrustedJSON([]byte(eventJSON.String()))
+	if !eventJSON.IsObject() {
+		// A JSON string would be unescaped by String() and its text parsed as
+		// the event, although nothing has looked at that text yet: the decode
+		// above only saw a string.
+		return errors.New("gomatrixserverlib: request event is not a JSON object")
+	}
+	i.fields.Event, err = verImpl.NewEventFromUntrustedJSON([]byte(eventJSON.Raw))
 	return err
 }
 
